@@ -279,6 +279,16 @@ Fixpoint bad_size_in (ops : list Z) {struct ops} : bool :=
 
 Definition pool_ok (pool : list Z) : bool := forallb (fun h => (0 <=? h) && (h <? 2 ^ 64)) pool.
 
+(* The clauses below are about "the probed key's bucket and signature" under the mapping the table
+   documents (signature = top 16 bits, bucket = Lemire's reduction of the low 32 bits: sig_of / bucket_of
+   above), which is also what the generator aims its colliding keys with. WHICH mapping a table uses is
+   not constrained by the property. The runner compares the implementation's own bucket index
+   (hook VerifBucketIx) with bucket_of for every key of the case; when they differ it reports the
+   single number -5 instead of the probes, and the case is outside what this judge can decide (the
+   exact model still disagrees, which is reported as a broken correspondence). *)
+Definition other_mapping (out : list Z) : bool :=
+  match out with [-5] => true | _ => false end.
+
 Definition judge_c15 (io : list Z) : list Z :=
   match io with
   | size0 :: np :: rest =>
@@ -289,6 +299,7 @@ Definition judge_c15 (io : list Z) : list Z :=
           let ops := firstn n8 rest2 in
           let out := skipn n8 rest2 in
           if negb (size_ok size0 && nb_ok (size0 / bucketSize) && pool_ok pool && (0 <=? np)) || bad_size_in ops then [1]
+          else if other_mapping out then [1]
           else
             let nb := size0 / bucketSize in
             judge_ops pool nb (map (key_of nb) pool) true [] ops out
@@ -416,6 +427,7 @@ Definition judge_c15multi (io : list Z) : list Z :=
           let out := skipn n9 rest2 in
           let nt := Z.to_nat (Z.min 8 ntab) in
           if negb (pool_ok pool && (0 <=? np)) || bad_size_in9 ops then [1]
+          else if other_mapping out then [1]
           else judge_slots nt 0 pool ops out (repeat false nt)
       | [] => [0; 99]
       end
